@@ -179,15 +179,19 @@ PROPS = {
     "C11": {
         "quick": [
             {"harness": "H_C11_seq_q", "cases": list(range(8)), "scale": SC},
+            {"harness": "H_C11_scan_q", "cases": list(range(30)), "scale": SC, "chunk": 3, "replay": False},
         ],
         "thorough": [
             {"harness": "H_C11_seq_t", "cases": list(range(8)), "scale": SC},
+            {"harness": "H_C11_scan_q", "cases": list(range(30)), "scale": SC, "chunk": 3, "replay": False},
+            {"harness": "H_C11_scan_c", "cases": list(range(30)), "scale": SC, "chunk": 2, "replay": False, "maxsec": 3300},
+            {"harness": "H_C11_scan_t", "cases": list(range(30)), "scale": SC, "chunk": 1, "replay": False, "maxsec": 3300},
         ],
-        "covers": {"quick": ["C01.seq.done", "C01.level>0", "C01.overflow-bucket-created"]},
-        "bounds": {"quick": "quiescent part only: 3 keys, prefix 3 puts + 2 symbolic steps {put, delete, compact, sync}; a full Items scan after every step must return every live key exactly once with its value, then ErrIterationDone twice; symbolic hashes (overflow chains, holes after deletes, mid-level split pointers reached by the solver); slotsPerBucket scaled to 2",
+        "covers": {"quick": ["C01.seq.done", "C01.level>0", "C01.overflow-bucket-created", "C11.scan.done", "C11.scan.index-grew"]},
+        "bounds": {"quick": "concurrent part: scanner thread (Next until done, then once more) and writer thread (2 symbolic Put/Delete over 3 preloaded + 2 new keys, forcing splits that move keys during the scan; thorough: 3 ops, or 1 op plus a Compact thread), all schedules at lock acquisitions, 3 patterns of low hash bits: every returned pair was put before that Next returned, every untouched preloaded key is returned, done stays done. Quiescent part: 3 keys, prefix 3 puts + 2 symbolic steps {put, delete, compact, sync}; a full Items scan after every step must return every live key exactly once with its value, then ErrIterationDone twice; symbolic hashes (overflow chains, holes after deletes, mid-level split pointers reached by the solver); slotsPerBucket scaled to 2",
                    "thorough": "prefix 4 puts + 3 steps"},
         "assumptions": COMMON_ASSUME,
-        "outside": "scans concurrent with writers/compaction (not yet built), slotsPerBucket=31",
+        "outside": "more than one writer, hash layouts other than the 3 low-bit patterns in the concurrent part, slotsPerBucket=31; schedule-dependent counterexamples of the concurrent part are not replayed natively (no hook inside Next/Put)",
     },
     "C14": {
         "quick": [
